@@ -323,32 +323,48 @@ class Ctx:
         model = None
         if use_model and self.model_ok and driver_available():
             model = run_driver_parallel(lines, self.pool)
-        st = self.streams.setdefault(stream, {"cases": 0, "nontrivial": 0})
         for idx, line in enumerate(lines):
             io, oo, nt = results[idx]
-            self.evaluations += 1
-            st["cases"] += 1
-            op = line.split(" ", 1)[0]
-            self.ops[op] = self.ops.get(op, 0) + 1
-            if io.startswith("ERR:"):
-                self.errkinds[io] = self.errkinds.get(io, 0) + 1
-            if io.startswith("HARNESS-FAULT") or (oo or "").startswith("ORACLE-FAULT"):
-                self.faults.append({"line": line, "impl": io, "oracle": oo})
-                continue
-            if nt:
-                st["nontrivial"] += 1
-                self.distinct.add(hashlib.md5(line.encode()).digest()[:8])
             mo = model[idx] if model is not None else None
-            if len(self.samples) < 12 and (idx % max(1, len(lines) // 3) == 0):
-                self.samples.append({"stream": stream, "line": line, "impl": io[:300], "model": (mo or "")[:300],
-                                     "oracle": (oo or "")[:300]})
-            if mo is not None and mo == "bad-op":
-                self.faults.append({"line": line, "impl": io, "model": mo})
-                continue
-            if oo is not None and oo != io:
-                self.mismatch_oracle.append({"stream": stream, "line": line, "impl": io, "oracle": oo, "model": mo})
-            elif mo is not None and mo != io:
-                self.mismatch_model.append({"stream": stream, "line": line, "impl": io, "oracle": oo, "model": mo})
+            self.record(stream, line, io, oo, nt, mo, sample=(idx % max(1, len(lines) // 3) == 0))
+
+    def compare_precomputed(self, stream, cases):
+        """cases: list of (line, impl_out, oracle_out_or_None, nontrivial) already evaluated on the
+        implementation (e.g. concurrent runs whose line is only known afterwards); the model is run here"""
+        cases = list(cases)
+        if not cases:
+            return
+        model = None
+        if self.model_ok and driver_available():
+            model = run_driver_parallel([c[0] for c in cases], self.pool)
+        for idx, (line, io, oo, nt) in enumerate(cases):
+            self.record(stream, line, io, oo, nt, model[idx] if model is not None else None,
+                        sample=(idx % max(1, len(cases) // 3) == 0))
+
+    def record(self, stream, line, io, oo, nt, mo, sample=False):
+        st = self.streams.setdefault(stream, {"cases": 0, "nontrivial": 0})
+        self.evaluations += 1
+        st["cases"] += 1
+        op = line.split(" ", 1)[0]
+        self.ops[op] = self.ops.get(op, 0) + 1
+        if io.startswith("ERR:"):
+            self.errkinds[io] = self.errkinds.get(io, 0) + 1
+        if io.startswith("HARNESS-FAULT") or (oo or "").startswith("ORACLE-FAULT"):
+            self.faults.append({"line": line, "impl": io, "oracle": oo})
+            return
+        if nt:
+            st["nontrivial"] += 1
+            self.distinct.add(hashlib.md5(line.encode()).digest()[:8])
+        if len(self.samples) < 12 and sample:
+            self.samples.append({"stream": stream, "line": line, "impl": io[:300], "model": (mo or "")[:300],
+                                 "oracle": (oo or "")[:300]})
+        if mo is not None and mo == "bad-op":
+            self.faults.append({"line": line, "impl": io, "model": mo})
+            return
+        if oo is not None and oo != io:
+            self.mismatch_oracle.append({"stream": stream, "line": line, "impl": io, "oracle": oo, "model": mo})
+        elif mo is not None and mo != io:
+            self.mismatch_model.append({"stream": stream, "line": line, "impl": io, "oracle": oo, "model": mo})
 
 
 # ----------------------------------------------------------------------------- main protocol
